@@ -151,6 +151,45 @@ impl G {
 	fn padlen(&self, r: &mut Rng) -> u16 {
 		match r.below(12) { 0 => 0, 1 => 1, 2 => 0xffff, 3 => 0xfffe, 4 => 0xfd, _ => r.below(300) as u16 }
 	}
+	/// every `SocketAddress` kind; hostnames of boundary lengths (0, 1, 255) over the whole allowed character set
+	fn sock_addr(&self, r: &mut Rng) -> msgs::SocketAddress {
+		use msgs::SocketAddress as A;
+		let port = self.u16b(r);
+		match r.below(5) {
+			0 => { let b = r.bytes(4); A::TcpIpV4 { addr: [b[0], b[1], b[2], b[3]], port } },
+			1 => { let mut a = [0u8; 16]; a.copy_from_slice(&r.bytes(16)); A::TcpIpV6 { addr: a, port } },
+			2 => { let mut a = [0u8; 12]; a.copy_from_slice(&r.bytes(12)); A::OnionV2(a) },
+			3 => A::OnionV3 { ed25519_pubkey: self.b32(r), checksum: self.u16b(r), version: r.next() as u8, port },
+			_ => {
+				let n = match r.below(8) { 0 => 0, 1 => 1, 2 => 255, 3 => 254, _ => r.below(40) as usize };
+				const CS: &[u8] = b"abcdefghijklmnopqrstuvwxyzABCDEFGHIJKLMNOPQRSTUVWXYZ0123456789.-_";
+				let s: String = (0..n).map(|_| *r.pick(CS) as char).collect();
+				A::Hostname { hostname: lightning::util::ser::Hostname::try_from(s).expect("valid hostname"), port }
+			},
+		}
+	}
+	/// well-formed UnsignedNodeAnnouncement: 0..7 addresses of all kinds (any order, repeats), excess_address_data empty or
+	/// starting with an unknown descriptor type (0, 6..=255), excess_data
+	fn node_ann(&self, r: &mut Rng) -> msgs::UnsignedNodeAnnouncement {
+		let nf = match r.below(4) { 0 => 0, 1 => 1, _ => r.below(12) as usize };
+		let na = match r.below(6) { 0 => 0, 1 => 1, 2 => 5, _ => r.below(8) as usize };
+		let addresses = (0..na).map(|_| self.sock_addr(r)).collect();
+		let excess_address_data = if r.chance(1, 2) { vec![] } else {
+			let mut v = self.vecu8(r, 30);
+			if v.is_empty() { v.push(0); }
+			v[0] = match r.below(4) { 0 => 0, 1 => 6, 2 => 255, _ => 6 + r.below(250) as u8 };
+			v
+		};
+		let mut alias = [0u8; 32]; alias.copy_from_slice(&r.bytes(32));
+		let rgb = r.bytes(3);
+		msgs::UnsignedNodeAnnouncement { features: lightning::types::features::NodeFeatures::from_be_bytes(r.bytes(nf)), timestamp: self.u32b(r), node_id: self.node_id(r),
+			rgb: [rgb[0], rgb[1], rgb[2]], alias: lightning::routing::gossip::NodeAlias(alias), addresses, excess_address_data,
+			excess_data: if r.chance(1, 2) { vec![] } else { self.vecu8(r, 40) } }
+	}
+	fn scids(&self, r: &mut Rng) -> Vec<u64> {
+		let n = match r.below(40) { 0 => 8191, 1..=4 => 0, 5..=8 => 1, 9 => 8190, _ => r.below(20) as usize };
+		if n > 100 { let x = self.u64b(r); (0..n as u64).map(|i| x.wrapping_add(i)).collect() } else { (0..n).map(|_| self.u64b(r)).collect() }
+	}
 	fn attribution(&self, r: &mut Rng) -> AttributionData {
 		let b = r.bytes(920);
 		<AttributionData as Readable>::read(&mut &b[..]).expect("attribution data is 920 raw bytes")
@@ -180,18 +219,24 @@ const NAMES: &[&str] = &[
 	// hand-written codecs with a hand-written schema (Model/MsgSchemasHand.lean; layout pinned to the source by
 	// Generated handPinned + Props hand_schemas_match_source)
 	"OpenChannel", "AcceptChannel", "OpenChannelV2", "AcceptChannelV2",
+	// two feature vectors merged on read / split on write around an ordinary schema (Model/MsgCustom.lean decodeInit / encodeInit)
+	"Init",
 ];
 /// hand-written codecs ending in `excess_data` (TailSchema: no TLV stream; compared at message level, not behind `wire::read`;
 /// the Unsigned… messages have no wire type of their own)
 const TAIL_NAMES: &[&str] = &["UnsignedChannelAnnouncement", "ChannelAnnouncement", "UnsignedChannelUpdate", "ChannelUpdate",
 	// irregular hand-written codecs with their own small model decoders (decodeErrorMsg / decodePing / decodePong)
 	"ErrorMessage", "WarningMessage", "Ping", "Pong"];
+/// hand-written codecs that are not a plain field sequence, with their own model decoders (Model/MsgCustom.lean): the answer line
+/// carries the parsed structure as well, the mutation stream is structure-aware (`custom_mutations`), and three of them are
+/// behind `wire::read`
+const CUSTOM_NAMES: &[&str] = &["UnsignedNodeAnnouncement", "NodeAnnouncement", "QueryShortChannelIds", "ReplyChannelRange"];
 /// number of TLV fields per message (for the presence mask)
 fn n_tlvs(name: &str) -> u32 {
 	match name {
 		"SpliceInit" | "SpliceAck" | "TxInitRbf" | "TxAckRbf" | "ClosingSigned" | "CommitmentSigned" | "ChannelReady"
 		| "UpdateFailHTLC" | "UpdateFulfillHTLC" | "StartBatch" => 1,
-		"ChannelReestablish" | "OpenChannel" | "AcceptChannel" => 2,
+		"ChannelReestablish" | "OpenChannel" | "AcceptChannel" | "Init" => 2,
 		"ClosingComplete" | "ClosingSig" => 3,
 		"UpdateAddHTLC" | "OpenChannelV2" | "AcceptChannelV2" => 4,
 		_ => 0,
@@ -305,32 +350,109 @@ fn build(name: &str, g: &G, r: &mut Rng, mask: u32, fails: &mut Vec<String>) -> 
 		"WarningMessage" => fin!(msgs::WarningMessage { channel_id: g.cid(r), data: g.text(r) }, msgs::WarningMessage),
 		"Ping" => fin!(msgs::Ping { ponglen: g.u16b(r), byteslen: g.padlen(r) }, msgs::Ping),
 		"Pong" => fin!(msgs::Pong { byteslen: g.padlen(r) }, msgs::Pong),
+		"Init" => {
+			let nf = match r.below(6) { 0 => 0, 1 => 1, 2 => 2, 3 => 3, _ => r.below(14) as usize };
+			let features = match r.below(4) { 0 => lightning::types::features::InitFeatures::from_be_bytes({ let mut b = r.bytes(nf); if !b.is_empty() && r.chance(1, 2) { b[0] = 0; } b }), _ => lightning::types::features::InitFeatures::from_be_bytes(r.bytes(nf)) };
+			let nn = match r.below(4) { 0 => 0, 1 => 1, _ => r.below(4) as usize };
+			let nets: Vec<bitcoin::constants::ChainHash> = (0..nn).map(|_| bitcoin::constants::ChainHash::from(g.b32(r))).collect();
+			let addr = g.sock_addr(r);
+			fin!(msgs::Init { features, networks: opt(mask, 0, nets), remote_network_address: opt(mask, 1, addr) }, msgs::Init)
+		},
+		"UnsignedNodeAnnouncement" => fin!(g.node_ann(r), msgs::UnsignedNodeAnnouncement),
+		"NodeAnnouncement" => fin!(msgs::NodeAnnouncement { signature: g.sig(r), contents: g.node_ann(r) }, msgs::NodeAnnouncement),
+		"QueryShortChannelIds" => fin!(msgs::QueryShortChannelIds { chain_hash: bitcoin::constants::ChainHash::from(g.b32(r)), short_channel_ids: g.scids(r) }, msgs::QueryShortChannelIds),
+		"ReplyChannelRange" => fin!(msgs::ReplyChannelRange { chain_hash: bitcoin::constants::ChainHash::from(g.b32(r)), first_blocknum: g.u32b(r), number_of_blocks: g.u32b(r), sync_complete: r.chance(1, 2), short_channel_ids: g.scids(r) }, msgs::ReplyChannelRange),
 		_ => panic!("no builder for {}", name),
 	}
 }
 
 /// Run the real decoder of `T` on `bytes`; answer line + impl-side oracle.
 fn dec_t<T: LengthReadable + Writeable + PartialEq + std::fmt::Debug>(name: &str, bytes: &[u8], fails: &mut Vec<String>) -> String {
+	dec_s::<T>(name, bytes, fails, &|_, _, _| (String::new(), vec![]))
+}
+
+/// … `structure(message, input, re-encoding)` returns the structure suffix of the answer line and the violations of the
+/// message-specific impl-side oracles (canonical form, declared lengths)
+fn dec_s<T: LengthReadable + Writeable + PartialEq + std::fmt::Debug>(name: &str, bytes: &[u8], fails: &mut Vec<String>, structure: &dyn Fn(&T, &[u8], &[u8]) -> (String, Vec<String>)) -> String {
 	let r = guarded(AssertUnwindSafe(|| {
 		let mut s = bytes;
 		<T as LengthReadable>::read_from_fixed_length_buffer(&mut s).map(|m| {
 			let e = m.encode();
 			let again = <T as LengthReadable>::read_from_fixed_length_buffer(&mut &e[..]);
 			let stable = again.as_ref().ok() == Some(&m);
-			(e, stable, format!("{:?}", again.as_ref().err()))
+			let (suffix, bad) = structure(&m, bytes, &e);
+			(e, stable, format!("{:?}", again.as_ref().err()), suffix, bad)
 		})
 	}));
 	match r {
 		Err(p) => { fails.push(format!("panic decoding {} from {}: {}", name, hex(bytes), p)); format!("panic {}", p.replace('\n', " ")) },
 		Ok(Err(e)) => format!("err {}", err_name(&e)),
-		Ok(Ok((e, stable, why))) => {
+		Ok(Ok((e, stable, why, suffix, bad))) => {
 			if !stable { fails.push(format!("re-encoding of decoded {} does not decode to an equal message: input={} reencoded={} ({})", name, hex(bytes), hex(&e), why)); }
-			format!("ok {}", hex(&e))
+			for b in bad { fails.push(format!("{} {}: input={} reencoded={}", name, b, hex(bytes), hex(&e))); }
+			format!("ok {}{}", hex(&e), suffix)
 		},
 	}
 }
 
+fn addr_id(a: &msgs::SocketAddress) -> u8 {
+	use msgs::SocketAddress as A;
+	match a { A::TcpIpV4 { .. } => 1, A::TcpIpV6 { .. } => 2, A::OnionV2(_) => 3, A::OnionV3 { .. } => 4, A::Hostname { .. } => 5 }
+}
+
+/// position of the `addrlen` field of an (Unsigned)NodeAnnouncement encoding (`sig` = 64 for the signed message): after
+/// signature, features (u16 length + bytes), timestamp, node_id, rgb, alias.  Computed from the bytes alone.
+fn addrlen_pos(b: &[u8], sig: usize) -> Option<usize> {
+	let flen = u16::from_be_bytes([*b.get(sig)?, *b.get(sig + 1)?]) as usize;
+	let pos = sig + 2 + flen + 4 + 33 + 3 + 32;
+	if pos + 2 <= b.len() { Some(pos) } else { None }
+}
+
+/// impl-side oracles for an ACCEPTED node_announcement (independent of the model, of `SocketAddress::len` and of the reader's
+/// own bookkeeping — descriptor sizes come from `Writeable::serialized_length`):
+/// * the declared `addrlen` is exactly the number of bytes of the parsed address descriptors plus excess_address_data (the
+///   decoder did not read an address past the declared length, nor leave part of the declared region unaccounted for);
+/// * header + 2 + addrlen + excess_data is the whole input (nothing was dropped, nothing was read twice);
+/// * the accepted bytes are the canonical encoding: every field is kept verbatim, so encode(decode(b)) == b.
+fn node_ann_structure(c: &msgs::UnsignedNodeAnnouncement, sig: usize, input: &[u8], reenc: &[u8]) -> (String, Vec<String>) {
+	let mut bad = vec![];
+	match addrlen_pos(input, sig) {
+		None => bad.push("accepted although the input ends before the addrlen field".to_string()),
+		Some(pos) => {
+			let declared = u16::from_be_bytes([input[pos], input[pos + 1]]) as usize;
+			let occupied: usize = c.addresses.iter().map(|a| a.serialized_length()).sum::<usize>() + c.excess_address_data.len();
+			if declared != occupied { bad.push(format!("accepted with declared addrlen {} but the parsed address descriptors + excess_address_data occupy {} bytes (addresses {:?})", declared, occupied, c.addresses)); }
+			if pos + 2 + occupied + c.excess_data.len() != input.len() { bad.push(format!("accepted but header {} + addrlen field + {} address bytes + {} excess bytes != input length {}", pos, occupied, c.excess_data.len(), input.len())); }
+		},
+	}
+	if reenc != input { bad.push("accepted bytes are not the canonical encoding (encode(decode(b)) != b)".to_string()); }
+	(format!(" a={} x={} e={}", c.addresses.iter().map(|a| addr_id(a).to_string()).collect::<Vec<_>>().join(","), c.excess_address_data.len(), c.excess_data.len()), bad)
+}
+
+/// impl-side oracles for an accepted QueryShortChannelIds / ReplyChannelRange (`hdr` = bytes before `encoding_len`): the declared
+/// `encoding_len` is exactly 1 + 8·(number of ids returned), the encoding type byte is 0, and the re-encoding is the prefix of the
+/// input that the declared length covers (bytes after the list are not part of the message)
+fn scid_structure(n: usize, hdr: usize, input: &[u8], reenc: &[u8]) -> (String, Vec<String>) {
+	let mut bad = vec![];
+	if input.len() < hdr + 3 { bad.push("accepted although the input ends before the encoding type".to_string()); }
+	else {
+		let declared = u16::from_be_bytes([input[hdr], input[hdr + 1]]) as usize;
+		if declared != 1 + 8 * n { bad.push(format!("accepted with declared encoding_len {} but {} ids were returned", declared, n)); }
+		if input[hdr + 2] != 0 { bad.push(format!("accepted with encoding type {}", input[hdr + 2])); }
+		if input.len() < hdr + 2 + declared || reenc != &input[..hdr + 2 + declared] { bad.push("re-encoding is not the prefix of the input covered by encoding_len".to_string()); }
+	}
+	(format!(" n={}", n), bad)
+}
+
 fn dec(name: &str, bytes: &[u8], fails: &mut Vec<String>) -> String {
+	match name {
+		"UnsignedNodeAnnouncement" => return dec_s::<msgs::UnsignedNodeAnnouncement>(name, bytes, fails, &|m, i, e| node_ann_structure(m, 0, i, e)),
+		"NodeAnnouncement" => return dec_s::<msgs::NodeAnnouncement>(name, bytes, fails, &|m, i, e| node_ann_structure(&m.contents, 64, i, e)),
+		"QueryShortChannelIds" => return dec_s::<msgs::QueryShortChannelIds>(name, bytes, fails, &|m, i, e| scid_structure(m.short_channel_ids.len(), 32, i, e)),
+		"ReplyChannelRange" => return dec_s::<msgs::ReplyChannelRange>(name, bytes, fails, &|m, i, e| scid_structure(m.short_channel_ids.len(), 41, i, e)),
+		"Init" => return dec_t::<msgs::Init>(name, bytes, fails),
+		_ => {},
+	}
 	macro_rules! table { ($($n: ident),*) => { match name { $(stringify!($n) => dec_t::<msgs::$n>(name, bytes, fails),)* _ => panic!("no decoder for {}", name) } } }
 	table!(Stfu, SpliceInit, SpliceAck, SpliceLocked, TxAddOutput, TxRemoveInput, TxRemoveOutput, TxComplete, TxInitRbf, TxAckRbf,
 		TxAbort, AnnouncementSignatures, ChannelReestablish, ClosingSigned, ClosingComplete, ClosingSig, CommitmentSigned,
@@ -367,6 +489,118 @@ fn non_minimal(n: u64, r: &mut Rng) -> Vec<u8> {
 		1 if n <= 0xffff_ffff => { let mut v = vec![0xfe]; v.extend_from_slice(&(n as u32).to_be_bytes()); if n >= 0x10000 { let mut w = vec![0xff]; w.extend_from_slice(&n.to_be_bytes()); w } else { v } },
 		_ => { let mut v = vec![0xff]; v.extend_from_slice(&n.to_be_bytes()); if n >= 0x1_0000_0000 { vec![0xff, 0, 0, 0, 0, 0, 0, 0, 1] } else { v } },
 	}
+}
+
+/// descriptors of a well-formed address region: (offset of the type byte, total length, offset of the hostname length byte)
+fn walk_descriptors(b: &[u8], start: usize, len: usize) -> Vec<(usize, usize, Option<usize>)> {
+	let (mut out, mut o) = (vec![], start);
+	while o < start + len && o < b.len() {
+		let l = match b[o] { 1 => 7, 2 => 19, 3 => 13, 4 => 38, 5 => match b.get(o + 1) { Some(h) => 4 + *h as usize, None => break }, _ => break };
+		if o + l > b.len() { break; }
+		out.push((o, l, if b[o] == 5 { Some(o + 1) } else { None }));
+		o += l;
+	}
+	out
+}
+
+fn set_u16(b: &mut [u8], pos: usize, v: u16) { b[pos] = (v >> 8) as u8; b[pos + 1] = v as u8; }
+fn get_u16(b: &[u8], pos: usize) -> u16 { u16::from_be_bytes([b[pos], b[pos + 1]]) }
+
+/// Structure-aware malformed stream for the custom codecs, from a valid encoding `full`: EVERY length field (features length,
+/// addrlen, hostname lengths / encoding_len) perturbed by ±1, ±2 (and 0, max, ±8); every descriptor type byte / the encoding type
+/// set to every small value and 255; addrlen set to cover exactly k descriptors, and k descriptors ± 1 byte, for every k;
+/// a byte deleted / inserted at every descriptor boundary with and without adjusting addrlen; truncation at every offset
+/// (`exhaustive`, else around the length fields and the tail + a sample); single-bit mutations of every byte from the first
+/// length field on (`exhaustive`, else a sample); extensions.
+fn custom_mutations(name: &str, full: &[u8], rng: &mut Rng, exhaustive: bool) -> Vec<(Vec<u8>, &'static str)> {
+	let mut out: Vec<(Vec<u8>, &'static str)> = vec![];
+	let long = full.len() > 1500;
+	let deltas: [i32; 4] = [-2, -1, 1, 2];
+	let (first_len_field, fields16): (usize, Vec<usize>);
+	let mut fields8: Vec<usize> = vec![];
+	let mut boundaries: Vec<usize> = vec![];
+	let mut type_bytes: Vec<usize> = vec![];
+	if name.ends_with("NodeAnnouncement") {
+		let sig = if name == "NodeAnnouncement" { 64 } else { 0 };
+		let pos = addrlen_pos(full, sig).expect("valid encoding");
+		let declared = get_u16(full, pos) as usize;
+		let ds = walk_descriptors(full, pos + 2, declared);
+		first_len_field = sig; fields16 = vec![sig, pos];
+		let mut covered = 0usize;
+		boundaries.push(pos + 2);
+		for (k, (o, l, h)) in ds.iter().enumerate() {
+			type_bytes.push(*o);
+			if let Some(h) = h { fields8.push(*h); }
+			covered += l;
+			boundaries.push(o + l);
+			// addrlen covers exactly the first k+1 descriptors (valid: the rest is excess_data), or one / two bytes less or more
+			for d in [-2i32, -1, 0, 1, 2] {
+				let v = covered as i32 + d;
+				if v >= 0 && v as usize != declared { let mut b = full.to_vec(); set_u16(&mut b, pos, v as u16); out.push((b, if d == 0 { "addrlen-covers-k" } else { "addrlen-k-off" })); }
+			}
+			let _ = k;
+		}
+		if declared > covered { type_bytes.push(pos + 2 + covered); }   // the unknown descriptor type that starts excess_address_data
+		// a further valid descriptor after the declared region (it is excess_data), and the same with addrlen enlarged to include it / all but one byte
+		let extra = msgs::SocketAddress::TcpIpV4 { addr: [1, 2, 3, 4], port: 5 }.encode();
+		for d in [0usize, extra.len() - 1, extra.len(), extra.len() + 1] {
+			let mut b = full[..pos + 2 + declared].to_vec(); b.extend_from_slice(&extra); b.extend_from_slice(&full[pos + 2 + declared..]);
+			if declared + d <= 0xffff { set_u16(&mut b, pos, (declared + d) as u16); out.push((b, "insert-descriptor")); }
+		}
+	} else {
+		let hdr = if name == "QueryShortChannelIds" { 32 } else { 41 };
+		first_len_field = hdr; fields16 = vec![hdr];
+		type_bytes.push(hdr + 2);
+		if name == "ReplyChannelRange" { type_bytes.push(40); }   // sync_complete: bool
+		let declared = get_u16(full, hdr) as i32;
+		for d in [-9i32, -8, -7, 7, 8, 9, 16] { let v = declared + d; if (0..=0xffff).contains(&v) { let mut b = full.to_vec(); set_u16(&mut b, hdr, v as u16); out.push((b, "len16-off8")); } }
+		if !long { boundaries = (0..=(full.len() - hdr - 3) / 8).map(|k| hdr + 3 + 8 * k).collect(); }
+	}
+	for &f in &fields16 {
+		let cur = get_u16(full, f) as i32;
+		for d in deltas { let v = cur + d; if (0..=0xffff).contains(&v) { let mut b = full.to_vec(); set_u16(&mut b, f, v as u16); out.push((b, "len16-delta")); } }
+		for v in [0u16, 1, 0xffff, 0x100, cur.wrapping_add(256) as u16] { if v as i32 != cur { let mut b = full.to_vec(); set_u16(&mut b, f, v); out.push((b, "len16-set")); } }
+	}
+	for &f in &fields8 {
+		let cur = full[f] as i32;
+		for d in deltas { let v = cur + d; if (0..=255).contains(&v) { let mut b = full.to_vec(); b[f] = v as u8; out.push((b, "len8-delta")); } }
+		for v in [0u8, 255] { if v as i32 != cur { let mut b = full.to_vec(); b[f] = v; out.push((b, "len8-set")); } }
+	}
+	for &t in &type_bytes {
+		for v in [0u8, 1, 2, 3, 4, 5, 6, 7, 255] { if t < full.len() && full[t] != v { let mut b = full.to_vec(); b[t] = v; out.push((b, "type-byte")); } }
+	}
+	for &o in &boundaries {
+		if o > full.len() { continue; }
+		for adjust in [false, true] {
+			// delete the byte before the boundary / insert a byte at it; `adjust` keeps the first 16-bit length field after the header consistent
+			let lf = *fields16.last().unwrap();
+			if o > lf + 2 { let mut b = full.to_vec(); b.remove(o - 1); if adjust { let v = get_u16(&b, lf); set_u16(&mut b, lf, v.wrapping_sub(1)); } out.push((b, "delete-byte")); }
+			let mut b = full.to_vec(); b.insert(o, rng.next() as u8); if adjust { let v = get_u16(&b, lf); set_u16(&mut b, lf, v.wrapping_add(1)); } out.push((b, "insert-byte"));
+		}
+	}
+	// truncations
+	let mut cuts: Vec<usize> = vec![];
+	if exhaustive && !long { cuts.extend(0..full.len()); }
+	else {
+		for k in first_len_field.saturating_sub(2)..full.len() { if k <= first_len_field + 6 || full.len() - k <= 24 { cuts.push(k); } }
+		for &f in &fields16 { for k in f.saturating_sub(1)..(f + 5).min(full.len()) { cuts.push(k); } }
+		for &o in &boundaries { for k in o.saturating_sub(1)..(o + 2).min(full.len()) { cuts.push(k); } }
+		for _ in 0..12 { cuts.push(rng.below(full.len() as u64) as usize); }
+	}
+	cuts.sort(); cuts.dedup();
+	for k in cuts { out.push((full[..k].to_vec(), "trunc")); }
+	// single-bit / single-byte mutations
+	let mut offs: Vec<usize> = vec![];
+	if exhaustive && !long { offs.extend(first_len_field..full.len()); for _ in 0..10 { offs.push(rng.below(full.len() as u64) as usize); } }
+	else { for _ in 0..24 { offs.push(first_len_field + rng.below((full.len() - first_len_field) as u64) as usize); } for _ in 0..6 { offs.push(rng.below(full.len() as u64) as usize); } }
+	for o in offs {
+		let mut b = full.to_vec(); b[o] ^= 1 << rng.below(8); out.push((b, "flip-bit"));
+		if exhaustive || rng.chance(1, 3) { let mut b = full.to_vec(); b[o] = match rng.below(4) { 0 => 0, 1 => 0xff, _ => rng.next() as u8 }; out.push((b, "flip-byte")); }
+	}
+	for n in 1..=3usize { let mut b = full.to_vec(); b.extend(rng.bytes(n)); out.push((b, "extend")); }
+	out.push((rb(rng, full.len().min(300) as u64 + 20), "random"));
+	if long { out = out.into_iter().enumerate().filter(|(i, _)| i % 4 == 0).map(|(_, x)| x).collect(); }   // 64 kB messages: a quarter of the stream
+	out
 }
 
 struct Run<'a> { rec: Rec, fails: Vec<String>, g: &'a G }
@@ -431,7 +665,7 @@ fn main() {
 	// type ids of the covered messages, from the real reader
 	let mut covered_ids: Vec<u16> = vec![];
 	let mut id_of: std::collections::BTreeMap<String, Option<u16>> = Default::default();
-	for name in NAMES {
+	for name in NAMES.iter().chain(CUSTOM_NAMES.iter()) {
 		let mut tmp = Rng::new(7);
 		let b = build(name, &g, &mut tmp, 0, &mut run.fails);
 		// find the id: the Encode::TYPE constants are crate-private; probe the ids through wire::read
@@ -540,6 +774,47 @@ fn main() {
 				}
 			}
 		}
+		// custom codecs: valid stream + structure-aware malformed stream (exhaustive for the first message of each round)
+		for name in CUSTOM_NAMES {
+			let n_valid = if name.ends_with("NodeAnnouncement") { 6 } else { 3 };
+			for k in 0..n_valid {
+				let st = rng.next();
+				let full = build(name, &g, &mut Rng(st), 0, &mut run.fails);
+				run.case_dec(name, &full, "valid");
+				if k >= 3 { continue; }
+				for (b, kind) in custom_mutations(name, &full, &mut rng, k == 0) { run.case_dec(name, &b, kind); }
+				if let Some(Some(id)) = id_of.get(*name) {
+					let mut w = id.to_be_bytes().to_vec(); w.extend_from_slice(&full);
+					run.case_wire(&w, "valid", &covered_ids);
+					for (b, kind) in custom_mutations(name, &full, &mut rng, false).into_iter().filter(|(_, k)| *k != "trunc" && *k != "flip-bit" && *k != "flip-byte").take(40) {
+						let mut w = id.to_be_bytes().to_vec(); w.extend_from_slice(&b);
+						run.case_wire(&w, kind, &covered_ids);
+					}
+					let k = rng.below(w.len() as u64 + 1) as usize;
+					run.case_wire(&w[..k], "trunc", &covered_ids);
+				}
+			}
+		}
+		// OPT-IN (env VERIF_C13_OVERSIZE=1; off by default because the first three fail on the unmodified code — candidate findings
+		// reported to the integrator): values / inputs beyond the u16 arithmetic of the hand-written codecs.  (1) a > 64 kB
+		// UnsignedNodeAnnouncement byte string with addrlen 0xffff whose descriptors cross the u16 boundary: `addr_readpos + 1 + addr.len()`
+		// overflows (panic with overflow checks, wrap-around without) — the model (unbounded Nat) answers BadLengthDescriptor;
+		// (2) encoding > 65535 bytes of addresses; (3) encoding 8192 short_channel_ids (`len as u16 * 8`).
+		if rep == 0 && std::env::var("VERIF_C13_OVERSIZE").map(|v| v == "1").unwrap_or(false) {
+			let host = msgs::SocketAddress::Hostname { hostname: lightning::util::ser::Hostname::try_from("a".repeat(255)).unwrap(), port: 80 };
+			let mut m = g.node_ann(&mut rng); m.addresses = vec![]; m.excess_address_data = vec![]; m.excess_data = vec![];
+			let mut b = m.encode(); let n = b.len(); b[n - 2] = 0xff; b[n - 1] = 0xff;
+			for _ in 0..260 { b.extend(host.encode()); }
+			run.case_dec("UnsignedNodeAnnouncement", &b, "oversize");
+			m.addresses = vec![host; 254];
+			if guarded(AssertUnwindSafe(|| m.encode().len())).is_err() { run.rec.oracle_fail("panic encoding an UnsignedNodeAnnouncement with 254 hostname addresses of 255 characters (65786 address bytes > u16::MAX)".into()); }
+			let q = msgs::QueryShortChannelIds { chain_hash: bitcoin::constants::ChainHash::from([0u8; 32]), short_channel_ids: vec![1; 8192] };
+			match guarded(AssertUnwindSafe(|| { let e = q.encode(); <msgs::QueryShortChannelIds as LengthReadable>::read_from_fixed_length_buffer(&mut &e[..]).ok() == Some(q.clone()) })) {
+				Err(p) => run.rec.oracle_fail(format!("panic encoding a QueryShortChannelIds with 8192 short_channel_ids: {}", p.replace('\n', " "))),
+				Ok(false) => run.rec.oracle_fail("decode(encode(m)) != m for a QueryShortChannelIds with 8192 short_channel_ids".into()),
+				Ok(true) => {},
+			}
+		}
 		// unknown / cfg-gated / short type ids
 		for _ in 0..40 {
 			let id: u16 = match rng.below(5) { 0 => 40 + rng.below(2) as u16, 1 => rng.below(300) as u16, 2 => 32768 + rng.below(32768) as u16, _ => rng.next() as u16 };
@@ -563,7 +838,7 @@ fn main() {
 	}
 	let _ = run.g;
 	run.rec.notes.insert("rule".into(), "every op line (message name + exact byte string) is a distinct case; valid stream = every TLV presence mask of each of the 32 covered macro-declared messages and of the 12 hand-written codecs with a hand-written model (Open/AcceptChannel(V2), (Unsigned)ChannelAnnouncement, (Unsigned)ChannelUpdate, ErrorMessage, WarningMessage, Ping, Pong), with fresh PRNG values; mutation stream = 16 mutation kinds + truncations on those encodings; wire ops through the verif_hooks::wire::read accessor; BigSize boundary values".into());
-	run.rec.notes.insert("covered_messages".into(), format!("{},{}", NAMES.join(","), TAIL_NAMES.join(",")));
+	run.rec.notes.insert("covered_messages".into(), format!("{},{},{}", NAMES.join(","), TAIL_NAMES.join(","), CUSTOM_NAMES.join(",")));
 	run.rec.notes.insert("wire_ids".into(), id_of.iter().map(|(k, v)| format!("{}={}", k, v.map(|x| x.to_string()).unwrap_or("not-dispatched".into()))).collect::<Vec<_>>().join(","));
 	run.rec.notes.insert("not_covered".into(), "macro-declared: TxSignatures (Vec<Witness>), RevokeAndACK (optional_vec of BlindedMessagePath); hand-written impls without a schema: Init (feature vectors are OR-ed and re-split on write), TxAddInput, OnionMessage, NodeAnnouncement (SocketAddress list), QueryShortChannelIds, ReplyChannelRange (encoding-type byte + sized scid vector)".into());
 	run.rec.finish();
